@@ -9,6 +9,7 @@
 import Pymodbus.Props.C10
 import Pymodbus.Props.C07
 import Pymodbus.Props.C03
+import Pymodbus.Generated.Tables
 namespace Pymodbus.Props.C12
 open Pymodbus Pymodbus.Server Pymodbus.Framer
 
@@ -172,5 +173,14 @@ example : (connStep ⟨.tcp, .aioTcp, false, false⟩ { buf := [] } ⟨ServerCtx
 -- … and over RTU framing on the Twisted UDP front-end
 example : (connStep ⟨.rtu, .twistedUdp, false, false⟩ { buf := [] } ⟨ServerCtx.mkSingle ⟨[.seq ⟨0, [7]⟩], 0, 0, 0, 0, true⟩, ctl0⟩
     [1, 3, 0, 0, 0, 1, 132, 10]).2.2 = ([[1, 3, 2, 0, 7, 249, 134]], none) := by rfl
+
+
+/-- tie to the source: the structure of the seven front-ends as read off the source files on this run (by ast: which
+    receive methods append unit 0 when broadcast is enabled, what each catch-all does with an exception out of the
+    receive call, who counts sent messages, who is gated by listen-only mode, that sending is gated by
+    `should_respond` and that `execute` copies transaction id and unit id to the response) is the one the model encodes -/
+theorem generated_server_structure :
+    Generated.serverStructure = allFrontends.map (fun f =>
+      (f.name, addsBroadcastUnit f, f.onErrorSrc, isTwisted f, isTwisted f, true, true)) := by rfl
 
 end Pymodbus.Props.C12
